@@ -126,7 +126,8 @@ def modes(d, sd, size):
 
 
 def fault_task(task):
-    size, mode_index = task
+    size, mode_index = task[:2]
+    early = task[2] if len(task) > 2 else None    # big outputs: only the first write indexes
     d = work_dir()
     sd = make_stubs(d)
     shims = build.ensure_shims()
@@ -146,7 +147,7 @@ def fault_task(task):
     N = int(open(cf).read().strip())
     viols = []
     n = 0
-    for k in range(1, N + 1):
+    for k in (range(1, N + 1) if early is None else [k_ for k_ in early if k_ <= N]):
         e = dict(e0)
         e["VERIF_FAULT_K"] = str(k)
         st, o, er = run([build.BIN] + args, e, data)
@@ -169,7 +170,8 @@ def fault_task(task):
 
 
 def pager_quit_task(task):
-    size, mode_index = task
+    size, mode_index = task[:2]
+    early = task[2] if len(task) > 2 else None
     d = work_dir()
     sd = make_stubs(d)
     name, args, data, extra, clean_status = modes(d, sd, size)[mode_index]
@@ -187,7 +189,7 @@ def pager_quit_task(task):
     rows = open(os.path.join(rec, "pg_cli.stdin"), "rb").read().count(b"\n")
     viols = []
     n = 0
-    for j in range(0, rows + 1):
+    for j in (range(0, rows + 1) if early is None else [j_ for j_ in early if j_ <= rows]):
         shutil.rmtree(rec, ignore_errors=True)
         os.makedirs(rec)
         e = dict(env)
@@ -401,6 +403,12 @@ def main(tier):
     ftasks = [(s, m) for s in sizes for m in range(6)]
     fres = explore.pmap(fault_task, ftasks)
     qres = explore.pmap(pager_quit_task, [(s, m) for s in sizes for m in (0, 1, 3, 4)])
+    # outputs far larger than a pipe buffer: the consumer disappears while the child process (git, rg, the differ)
+    # still has output to write, so the child is killed by SIGPIPE; first write indexes / pager rows only
+    BIG = 3000
+    early = [1, 2, 3, 5, 8, 13, 50]
+    fres += explore.pmap(fault_task, [(BIG, m, early) for m in range(6)])
+    qres += explore.pmap(pager_quit_task, [(BIG, m, [0, 1, 2, 10]) for m in (0, 3, 4, 5)])
     subsets = [frozenset(c) for r in range(6) for c in itertools.combinations(SOURCES, r)]
     sres = explore.pmap(selection_task, subsets)
     lres = explore.pmap(less_args_task, [
@@ -429,6 +437,6 @@ def main(tier):
                    [{"mode": r["mode"], "pager_rows": r["rows"]} for r in qres[:2]],
         "write_fault_runs": sum(r["n"] for r in fres), "pager_quit_runs": sum(r["n"] for r in qres),
         "pager_selection_environments": len(subsets), "wrapped_statuses": [0, 1, 2, 3, 128, 129, 255],
-        "input_sizes": sizes, "exhaustive": True,
+        "input_sizes": sizes, "big_input_size_sections": BIG, "big_input_fault_indexes": early, "exhaustive": True,
     }
     return report.finish(PROP, tier, "fault_enumeration", cov, viols, ASSUMPTIONS, t0, runner.seed())
